@@ -724,6 +724,9 @@ class EqPathParallelSpecFinder(
             return True
         if children1 == () == children2:
             return self._atom_path_match(id1, id2, sp1, sp2)
+        if (children1, children2) not in matching_info.get((id1, id2), {}):
+            # both labels have a rule but the two rules were not matched together
+            return False
         mem.add((id1, id2))
         for j2, ((j1, child1), child2) in enumerate(
             zip(
